@@ -469,7 +469,7 @@ void monitor_access(const void* addr, unsigned size, bool store) {
 }
 
 void mem_range(const void* p, size_t n, bool store) {
-    if (!tls_task || (!E.monitor && !E.watch_p) || !n) return;
+    if (!tls_task || (!E.monitor && !(E.watch_p && E.watch_armed)) || !n) return;
     const u8* b = (const u8*)p;
     while (n) { unsigned c = n > 8 ? 8 : (unsigned)n; unsigned lo = (uintptr_t)b & 7; if (c > 8 - lo) c = 8 - lo; monitor_access(b, c, store); b += c; n -= c; }
 }
@@ -531,7 +531,7 @@ char* sim_asctime(const struct tm* t) { touches_hidden_state(1); return asctime(
 char* sim_strerror(int e) { touches_hidden_state(2); return strerror(e); }
 char* sim_setlocale(int c, const char* l) { touches_hidden_state(3); return setlocale(c, l); }
 void sim_qsort(void* base, size_t n, size_t sz, int (*cmp)(const void*, const void*)) { mem_range(base, n * sz, true); qsort(base, n, sz, cmp); }
-void* sim_bsearch(const void* key, const void* base, size_t n, size_t sz, int (*cmp)(const void*, const void*)) { mem_range(base, n * sz, false); return bsearch(key, base, n, sz, cmp); }
+void* sim_bsearch(const void* key, const void* base, size_t n, size_t sz, int (*cmp)(const void*, const void*)) { return bsearch(key, base, n, sz, cmp); }   // elements are read by the (instrumented) comparator
 
 #ifdef POLYSIM_ASAN
 void* __asan_memcpy(void*, const void*, size_t); void* __asan_memmove(void*, const void*, size_t); void* __asan_memset(void*, int, size_t);
